@@ -867,6 +867,26 @@ fn write_evidence(
     let dir = cfg.verif_dir.join("evidence");
     let _ = std::fs::create_dir_all(&dir);
     let path = dir.join(format!("{}.json", prop.id));
+    // second pass of the same property (the build with debug assertions and overflow checks): added to the
+    // evidence the first pass wrote, never replacing it
+    if std::env::var("LMCHECK_SECOND_PASS").is_ok() {
+        if let Some(mut first) = std::fs::read_to_string(&path).ok().and_then(|t| serde_json::from_str::<Value>(&t).ok()) {
+            let total = first["coverage"]["evaluations"].as_u64().unwrap_or(0) + evaluations;
+            first["coverage"]["evaluations"] = json!(total);
+            first["coverage"]["checked_build_pass"] = json!({
+                "what": "the same generators (a quarter of the cases, other shard seeds excluded: same seeds) run against the library compiled with debug assertions and arithmetic overflow checks - what `cargo test` or a build without --release gives",
+                "evaluations": evaluations,
+                "distinct_nontrivial": distinct,
+                "sub_checks": ev["coverage"]["sub_checks"],
+                "wall_s": ev["wall_s"],
+            });
+            first["coverage"]["rule"] = json!(format!("{} || [checked-build pass] the same sub-checks at a quarter of the cases with debug assertions and overflow checks compiled in", first["coverage"]["rule"].as_str().unwrap_or("")));
+            first["violations"] = json!(first["violations"].as_u64().unwrap_or(0) + violations as u64);
+            first["wall_s"] = json!(first["wall_s"].as_f64().unwrap_or(0.0) + ev["wall_s"].as_f64().unwrap_or(0.0));
+            std::fs::write(&path, serde_json::to_string_pretty(&first).unwrap()).expect("cannot write evidence");
+            return;
+        }
+    }
     std::fs::write(&path, serde_json::to_string_pretty(&ev).unwrap()).expect("cannot write evidence");
 }
 
